@@ -37,7 +37,7 @@ class C11(BaseCheck):
   ASSUMPTIONS = ('a tag counts as answered when the client has read the last byte of any R-frame carrying it '
                  '(known from the simulated socket\'s read offsets)',)
   QUICK_CASES = 720
-  THOROUGH_CASES = 6000
+  THOROUGH_CASES = 20000
   QUICK_WALL = 50
   THOROUGH_WALL = 420
   MIN_DISTINCT = 10
